@@ -141,6 +141,39 @@ def signature(kind, name, payload):
 	return f'{kind}:{name}:' + hashlib.sha256(repr(payload).encode('utf8')).hexdigest()[:12]
 
 
+def default_object_problem(net, name, model, parent):
+	cls = getattr(net.module, name)
+	outcome_ = limited(cls)
+	if outcome_[0] != 'ok':
+		return f'the class cannot be default-constructed: {outcome_[1:]}'
+	obj = outcome_[1]
+	constants = {field.name: field for field in model.fields if field.is_const}
+	for initializer in model.initializers:
+		const_field = constants.get(initializer.value)
+		if const_field is None or not hasattr(obj, codec.fix_name(initializer.target_property_name)):
+			continue
+		expected = const_field.value
+		if isinstance(expected, str):
+			enum_model = net.by_name.get(const_field.field_type) if isinstance(const_field.field_type, str) else None
+			expected = next((v.value for v in enum_model.values if v.name == expected), None) if enum_model is not None else None
+		actual = getattr(obj, codec.fix_name(initializer.target_property_name))
+		actual = getattr(actual, 'value', actual)
+		if expected is not None and actual != expected:
+			return f'a default-constructed object has {initializer.target_property_name} = {actual}, the schema initialises it with ' \
+				f'{initializer.value} = {expected}'
+	holds_abstract = any(
+		isinstance(field.field_type, str) and codec.kind(net.by_name.get(field.field_type)) == 'Struct' and net.by_name[field.field_type].is_abstract
+		for field in codec.settable_fields(model))
+	# (a member of abstract type defaults to an instance of the abstract base, which encodes but is not a value of the family)
+	if parent and not holds_abstract:
+		encoded = limited(lambda: bytes(obj.serialize()))
+		if encoded[0] == 'ok':
+			fac_text, fac = impl_fac(net, parent, encoded[1])
+			if fac is None or fac[0] != name:
+				return f'the encoding of a default-constructed object is decoded by {parent}Factory as {fac_text[:80]}'
+	return None
+
+
 def pairing_values(net, generator, model, tier):
 	"""For every array member whose element type is an abstract family: each concrete child once FOLLOWED by another element (so that
 	where its encoding ends matters) and once last."""
@@ -240,6 +273,14 @@ def run_network(check, net, per_class, per_class_mutants):
 					check.fail(signature('factory', name, data.hex()),
 						f'{net.name}.{parent_of[name]}Factory decodes {name} bytes as {fac_text[:100]}',
 						{'network': net.name, 'class': name, 'factory': parent_of[name], 'bytes': data.hex(), 'op': 'factory'})
+		# P: a default-constructed object already carries the constants its schema names with @initializes (what create_by_name and the
+		# descriptor factories rely on), and the family factory recognises its encoding
+		if not is_abstract and codec.kind(model) == 'Struct' and model.initializers:
+			problem = default_object_problem(net, name, model, parent_of.get(name))
+			check.case(f'{net.name}:default-object', name)
+			if problem:
+				check.fail(signature('default-object', name, problem), f'{net.name}.{name}: {problem}',
+					{'network': net.name, 'class': name, 'op': 'default-object'})
 		if is_abstract or not encodings:
 			continue
 		mutant_stream = [mutate(rng, rng.choice(encodings)) for _ in range(per_class_mutants)]
